@@ -1,6 +1,9 @@
 package pgdump
 
-import "math"
+import (
+	"math"
+	"strconv"
+)
 
 // JSONB constants
 const (
@@ -262,19 +265,23 @@ func decodeNumericLong(raw []byte) interface{} {
 	return computeNumeric(digits, weight, sign)
 }
 
-func computeNumeric(digits []int, weight, sign int) float64 {
+func computeNumeric(digits []int, weight, sign int) interface{} {
 	if len(digits) == 0 {
-		return 0
+		return float64(0)
 	}
-	result := float64(0)
+	// exact decimal text of the value, rounded once (correctly) by strconv
+	buf := make([]byte, 0, 4*len(digits)+24)
+	if sign < 0 {
+		buf = append(buf, '-')
+	}
 	for _, d := range digits {
-		result = result*10000 + float64(d)
+		if d >= 10000 {
+			return nil // not a base-10000 digit: corrupt value
+		}
+		buf = append(buf, byte('0'+d/1000), byte('0'+d/100%10), byte('0'+d/10%10), byte('0'+d%10))
 	}
-	exp := weight - len(digits) + 1
-	if exp >= 0 {
-		result *= math.Pow(10000, float64(exp))
-	} else {
-		result /= math.Pow(10000, float64(-exp))
-	}
-	return float64(sign) * result
+	buf = append(buf, 'e')
+	buf = strconv.AppendInt(buf, int64(4*(weight-len(digits)+1)), 10)
+	result, _ := strconv.ParseFloat(string(buf), 64)
+	return result
 }
